@@ -2,7 +2,9 @@ package sim
 
 import (
 	"fmt"
+	"io"
 	"sort"
+	"sync"
 	"sync/atomic"
 
 	"github.com/RoaringBitmap/roaring"
@@ -19,6 +21,37 @@ type gseg struct {
 	segment.Segment
 	sim *Sim
 	no  int64
+	// shield serialises stored-field access to one ice v2 segment: its
+	// decompression buffer is shared and unsynchronised (known finding); the
+	// shield keeps that known race from masking unknown ones under
+	// GORACE=halt_on_error. It only ever delays, never changes a result.
+	shield sync.Mutex
+}
+
+func (g *gseg) VisitStoredFields(num uint64, visitor segment.StoredFieldVisitor) error {
+	if g.sim.shieldV2 && g.Segment.Version() == 2 {
+		g.shield.Lock()
+		defer g.shield.Unlock()
+	}
+	return g.Segment.VisitStoredFields(num, visitor)
+}
+
+// shieldedMerger holds the shields of its input segments while it reads them.
+type shieldedMerger struct {
+	segment.Merger
+	in []*gseg
+}
+
+func (m *shieldedMerger) WriteTo(w io.Writer, closeCh chan struct{}) (int64, error) {
+	for _, g := range m.in {
+		g.shield.Lock()
+	}
+	defer func() {
+		for _, g := range m.in {
+			g.shield.Unlock()
+		}
+	}()
+	return m.Merger.WriteTo(w, closeCh)
 }
 
 func (g *gseg) DocsMatchingTerms(terms []segment.Term) (*roaring.Bitmap, error) {
@@ -108,7 +141,18 @@ func (s *Sim) GatedPlugins(onMerge func(n int, live []uint64, ids []string)) []*
 					sort.Strings(ids)
 					onMerge(len(segs), live, ids)
 				}
-				return b.Merge(un, drops, bufSize)
+				m := b.Merge(un, drops, bufSize)
+				if s.shieldV2 && b.Version == 2 {
+					var in []*gseg
+					for _, sg := range segs {
+						if g, ok := sg.(*gseg); ok {
+							in = append(in, g)
+						}
+					}
+					sort.Slice(in, func(i, j int) bool { return in[i].no < in[j].no })
+					return &shieldedMerger{Merger: m, in: in}
+				}
+				return m
 			},
 		})
 	}
